@@ -602,7 +602,8 @@ def find_group_cohorts(
         merged_keys.update(cohort)
         allchunks = (label_chunks[member].tolist() for member in cohort)
         chunk = tuple(set(itertools.chain(*allchunks)))
-        merged_cohorts[chunk] = cohort
+        # cohorts that were merged separately can span exactly the same blocks: keep the labels of all of them
+        merged_cohorts[chunk] = sorted(merged_cohorts.get(chunk, []) + cohort)
 
     actual_ngroups = np.concatenate(tuple(merged_cohorts.values())).size
     expected_ngroups = present_labels.size
